@@ -409,18 +409,32 @@ func (StakeSchedule) checkBlock(t *explore.Transition) ([]V, bool) {
 	if len(last.Txs) == 0 {
 		moves := c16MovesOfHistory(t.Cur)
 		credit := map[c16OcKey]*big.Int{}
+		// The one exception to "a move never reaches the owner's balance": the target candidate of the move is
+		// no longer a candidate at the due block (it was removed meanwhile) — then the full value returns to
+		// the owner at the due block. A target that is present before the step and gone after a fast-forward
+		// that crossed an update boundary before the due block may have been removed before or after the
+		// maturity: both outcomes are possible, such (owner, coin) pairs are not judged.
+		ambiguous := map[c16OcKey]bool{}
 		for _, f := range due {
 			if f.MoveTo != 0 {
-				continue
+				inPre, inPost := c16CandByID(&pre.Export, f.MoveTo) != nil, c16CandByID(&post.Export, f.MoveTo) != nil
+				switch {
+				case !inPre: // removed before this step: returns to the owner
+				case !inPost && c16BoundaryIn(pre.Height, int64(f.Height)-1, period):
+					ambiguous[c16OcKey{f.Addr, f.Coin}] = true
+					continue
+				default: // live at the due block: goes to the target (judged below)
+					continue
+				}
 			}
 			k := c16OcKey{f.Addr, f.Coin}
 			if credit[k] == nil {
 				credit[k] = new(big.Int)
 			}
 			credit[k].Add(credit[k], f.Value)
-			// provenance: a fund made by MoveStake must never reach a balance
+			// provenance: a fund made by MoveStake with target id 0 (no target candidate at all) must never reach a balance
 			for _, mv := range moves {
-				if f.Key != "-" && mv.Due == f.Height && mv.Sender == f.Addr && mv.Coin == f.Coin && mv.Value.Cmp(f.Value) == 0 && mv.From.String() == f.Key {
+				if f.MoveTo == 0 && f.Key != "-" && mv.Due == f.Height && mv.Sender == f.Addr && mv.Coin == f.Coin && mv.Value.Cmp(f.Value) == 0 && mv.From.String() == f.Key {
 					if d := new(big.Int).Sub(c16BalanceOf(post, f.Addr, f.Coin), c16BalanceOf(pre, f.Addr, f.Coin)); d.Sign() > 0 {
 						out = append(out, V{Signature: "move-matured-to-owner-balance", Detail: fmt.Sprintf("the MoveStake of %s (coin %d) from %s to %s accepted at height %d matured at height %d into the OWNER'S BALANCE (%s rose by %s); target id stored in the fund: 0", f.Value, f.Coin, f.Key, mv.To.String(), mv.Due-c16RefMovePeriod, f.Height, f.Addr.String(), d)})
 					}
@@ -455,6 +469,9 @@ func (StakeSchedule) checkBlock(t *explore.Transition) ([]V, bool) {
 			if k.Owner == (types.Address{}) && k.Coin == 0 {
 				continue // block-reward rounding goes to the zero address
 			}
+			if ambiguous[k] {
+				continue
+			}
 			want := credit[k]
 			if want == nil {
 				want = new(big.Int)
@@ -466,10 +483,10 @@ func (StakeSchedule) checkBlock(t *explore.Transition) ([]V, bool) {
 			sig := "matured-fund-not-credited-exactly"
 			if got.Cmp(want) > 0 {
 				sig = "balance-rose-without-due-fund"
-				// is the surplus a move that was due?
+				// is the surplus a move that was due for a live target?
 				for _, f := range due {
 					if f.MoveTo != 0 && f.Addr == k.Owner && f.Coin == k.Coin {
-						sig = "move-credited-to-owner-balance"
+						sig = "move-matured-to-owner-balance"
 					}
 				}
 			}
